@@ -65,7 +65,7 @@ def mk_sim(v, integrator="REB_INTEGRATOR_IAS15", tree=False, null_particles=Fals
     else:
         v.assume(r.tree_root.tag)          # tree_root != NULL
     # wf(r)
-    v.assume(0 <= s.N, s.N <= s.Nalloc, 0 <= s.Nvar, s.Nvar <= s.N, -1 <= s.Nactive)
+    v.assume(0 <= s.N, s.N <= s.Nalloc, 0 <= s.Nvar, s.Nvar <= s.N, -1 <= s.Nactive, s.Nactive <= s.N - s.Nvar)
     if null_particles:
         s.parts = None
         r.particles = NULL
@@ -105,6 +105,8 @@ def lname(f):
 def prove_wf(v, s, tag="wf"):
     r = s.r
     v.prove(tag + ".counters", z3.And(0 <= r.N, r.N <= r.N_allocated, 0 <= r.N_var, r.N_var <= r.N, -1 <= r.N_active))
+    # the active particles are among the real particles: every force loop runs i < N_active over particles[]
+    v.prove(tag + ".N_active_at_most_N_real", r.N_active <= r.N - r.N_var)
     o = parts_obj(s)
     if o is None:
         v.prove(tag + ".storage_is_block_of_N_allocated", r.N_allocated == 0)
@@ -200,7 +202,10 @@ def gen_remove_tasks(integ):
         r = s.r
         v.prove("returns_1", ret == 1)
         v.prove("N_decremented", r.N == s.N - 1)
-        v.prove("other_counters_unchanged", z3.And(r.N_allocated == s.Nalloc, r.N_var == s.Nvar, r.N_active == s.Nactive))
+        v.prove("other_counters_unchanged", z3.And(r.N_allocated == s.Nalloc, r.N_var == s.Nvar))
+        # the active particles stay inside the array: with every particle active (N_active == N) the count follows N,
+        # otherwise it is left alone (the moved particle takes over the slot, and the role, of the removed one)
+        v.prove("N_active_follows_N_only_if_all_were_active", r.N_active == z3.If(s.Nactive > s.N - 1, s.N - 1, s.Nactive))
         v.ground("same_storage_block", parts_obj(s).id == s.pid)
         prove_wf(v, s)
         cur = cur_arrays(s)
